@@ -123,17 +123,16 @@ def gen_cases(tier, seed):
                         c.update({"family": "alias", "driver": driver, "bs": bs, "sched": sched, "order": order,
                                   "sseed": r.randrange(1 << 30), "fs": "ext4"})
                         yield c
-    # family 1b: the same top-level-link aliases with the one interleaving that defeats a path-based identity check forced by
-    # supervisor gates: a worker's stat of dst/<link>/f returns (ENOENT) -> only then may another worker create the link ->
-    # only then may the first worker open dst/<link>/f
-    for a in alias_cases():
-        if not a["alias"].startswith("toplevel"):
-            continue
-        for bs in ("64KB", "np"):
-            for rep in range(2 if tier == "quick" else 10):
-                c = copy.deepcopy(a)
-                c.update({"family": "alias", "driver": "parfile", "bs": bs, "sched": "gate", "order": None, "sseed": r.randrange(1 << 30), "fs": "ext4"})
-                yield c
+    # family 1c: two sources of the same name, the first a link whose text leads (from the destination) to the second, a regular
+    # file.  Forced order: a worker's stat of dst/l returns ENOENT -> another worker creates dst/l -> ../s2/l -> the first worker
+    # opens dst/l, i.e. the source itself.  Whatever xcp makes of the duplicate name, the source s2/l must stay as it is.
+    D_ = lambda p_: {"p": p_, "k": "d"}
+    for bs in ("64KB", "np"):
+        for rep in range(3 if tier == "quick" else 12):
+            yield {"alias": "same-name-link-leads-to-later-source", "spec": [D_("s1"), {"p": "s1/l", "k": "l", "target": "../s2/l"}, D_("s2"), F("s2/l", 70000, 41), D_("dst"),
+                                                                              D_("other"), F("other/keep", 99, 13)],
+                   "args": ["s1/l", "s2/l", "dst"], "protected": ["s2/l"], "family": "alias", "driver": "parfile", "bs": bs, "sched": "gate", "order": None,
+                   "sseed": r.randrange(1 << 30), "fs": "ext4", "gatepaths": {"lp": "dst/l", "fp": "dst/l", "n1role": "worker"}}
     # family 4: ordinary, alias-free copies of sources with unusual metadata (set-ID bits, foreign owners, xattrs, odd times):
     # a successful copy must leave all of it alone
     for i in range(40 if tier == "quick" else 600):
@@ -215,8 +214,12 @@ def run_alias(case, res):
                 link = os.path.basename(case["args"][-2])
                 lp = root + "/" + (dest if "-T" in case["args"] else dest + "/" + link)
                 fp = lp + "/f"
+                n1extra = {}
+                if case.get("gatepaths"):
+                    lp, fp = root + "/" + case["gatepaths"]["lp"], root + "/" + case["gatepaths"]["fp"]
+                    n1extra = {"role": case["gatepaths"]["n1role"]}
                 plan = {"sched": "jitter", "jitter": [100, 300], "sched_seed": case["sseed"], "log_mode": "none", "rules": [
-                    {"id": "n1", "sys": "statx", "path": fp, "action": "note", "when": "exit"},
+                    dict({"id": "n1", "sys": "statx", "path": fp, "action": "note", "when": "exit"}, **n1extra),
                     {"id": "g1", "sys": "symlink", "path": lp, "action": "hold", "until": "n1", "maxwait_ms": 400},
                     {"id": "n2", "sys": "symlink", "path": lp, "action": "note", "when": "exit"},
                     {"id": "g2", "sys": "openat", "path": fp, "action": "hold", "until": "n2", "maxwait_ms": 400}]}
